@@ -879,6 +879,28 @@ func (x *Exec) storeStructElem(st *State, p *Pointer, t types.Type, path []strin
 	}
 }
 
+// havocStructElems gives every field map of the array of struct values at ref arbitrary new contents.
+func (x *Exec) havocStructElems(st *State, ref *Term, t types.Type, path []string, key string) {
+	fs, k := x.fieldsOf(t)
+	if len(path) == 0 {
+		key = k
+	}
+	for _, f := range fs {
+		fpath := append(append([]string{}, path...), f.Name)
+		if f.S == nil && x.isStruct(f.T) {
+			x.havocStructElems(st, ref, f.T, fpath, key)
+			continue
+		}
+		srt := f.S
+		if srt == nil {
+			srt = x.sortOf(f.T)
+		}
+		hk, ks := x.structElemKey(key, fpath, srt, f.T)
+		m := st.hget(hk, ks)
+		st.hset(hk, x.vc.define("h", Store(m, ref, x.fresh("hv.elems", ArrS(IntS, srt)))), ref)
+	}
+}
+
 // zeroStructElems zero-initialises every field map of a fresh array of struct values at ref.
 func (x *Exec) zeroStructElems(st *State, ref *Term, t types.Type, path []string, key string) {
 	fs, k := x.fieldsOf(t)
